@@ -57,7 +57,10 @@ def cfgs(tier, seed):
         out.append(dict(base, sweeper='generic_implicit', qd='LU', prob='dahlquist', n=1, M=[2, 2], NP=2, maxiter=2, predict='pfasst_burnin', finter=True))
         out.append(dict(base, sweeper='generic_implicit', qd='LU', prob='dahlquist', n=1, M=[2], NP=1, maxiter=3, residual_type='full_rel'))
         out.append(dict(base, sweeper='generic_implicit', qd='LU', prob='dahlquist', n=1, M=[2], NP=2, maxiter=3, quad_type='GAUSS', jac=True))
-        out.append(dict(base, sweeper='generic_implicit', qd='LU', prob='dahlquist', n=1, M=[3], NP=2, maxiter=2, quad_type='LOBATTO', jac=False))
+        out.append(dict(base, sweeper='generic_implicit', qd='LU', prob='dahlquist', n=1, M=[3], NP=2, maxiter=5, quad_type='LOBATTO', jac=False))
+        out.append(dict(base, sweeper='generic_implicit', qd='IE', prob='dahlquist', n=1, M=[3], NP=2, maxiter=6, quad_type='LOBATTO', jac=True))
+        out.append(dict(base, sweeper='generic_implicit', qd='LU', prob='dahlquist', n=1, M=[3], NP=1, maxiter=5, quad_type='LOBATTO', initial_guess='zero'))
+        out.append(dict(base, sweeper='generic_implicit', qd='LU', prob='dahlquist', n=1, M=[2], NP=1, maxiter=5, quad_type='RADAU-LEFT', initial_guess='zero'))
         out.append(dict(base, sweeper='generic_implicit', qd='LU', prob='dahlquist', n=1, M=[2], NP=3, maxiter=2, quad_type='GAUSS', jac=True))
         out.append(dict(base, sweeper='imex_1st_order', qd='IE', prob='dahlquist', n=2, M=[2, 1], NP=1, maxiter=3, predict=None))
         out.append(dict(base, sweeper='generic_implicit', qd='LU', prob='dahlquist', n=1, M=[3], NP=1, maxiter=3))
